@@ -7,6 +7,7 @@ use std::cell::Cell;
 thread_local! {
     static ROOT_LP_DISABLED: Cell<bool> = const { Cell::new(false) };
     static FAST_PATH_DISABLED: Cell<bool> = const { Cell::new(false) };
+    static ROOT_LP_RAN: Cell<bool> = const { Cell::new(false) };
     static AGENDA_SEED: Cell<Option<u64>> = const { Cell::new(None) };
     static CHECK_INTERVAL: Cell<Option<usize>> = const { Cell::new(None) };
     static TIMEOUT_AT_CHECK: Cell<Option<u64>> = const { Cell::new(None) };
@@ -17,6 +18,10 @@ thread_local! {
 /// Skip the root LP relaxation step of `search_with_timeout_and_memory`.
 pub fn set_root_lp_disabled(v: bool) { ROOT_LP_DISABLED.with(|c| c.set(v)); }
 pub fn root_lp_disabled() -> bool { ROOT_LP_DISABLED.with(|c| c.get()) }
+
+/// Observation: did the root LP step run since the flag was last cleared?
+pub fn note_root_lp_ran() { ROOT_LP_RAN.with(|c| c.set(true)); }
+pub fn take_root_lp_ran() -> bool { ROOT_LP_RAN.with(|c| c.replace(false)) }
 
 /// Make `try_optimization_minimize/maximize` fall back to search.
 pub fn set_fast_path_disabled(v: bool) { FAST_PATH_DISABLED.with(|c| c.set(v)); }
